@@ -18,7 +18,19 @@ func TestMain(m *testing.M) {
 		fmt.Println("INFRA: reference self-check failed:", err)
 		os.Exit(3)
 	}
-	os.Exit(m.Run())
+	rc := m.Run()
+	killChildren()
+	os.Exit(rc)
+}
+
+// killChildren ends the helper processes (REST server, node) this test binary started.
+func killChildren() {
+	if srv != nil && srv.cmd != nil && srv.cmd.Process != nil {
+		srv.cmd.Process.Kill()
+	}
+	if node != nil && node.cmd != nil && node.cmd.Process != nil {
+		node.cmd.Process.Kill()
+	}
 }
 
 func selfCheck() error {
